@@ -17,7 +17,9 @@ def run(ctx):
                 "raw strings ≤ 60 symbols with Unicode identifiers, and generated tasks (mixed-case names, markers, function "
                 "attributes) × -k / -m / after expressions through KeywordMatcher / MarkMatcher / select_by_*, and whole projects whose tasks "
                 "carry after strings (2–4 tasks sharing one string, self-matching declarers; real DAG construction under several task orders "
-                "and real builds under several PYTHONHASHSEEDs: every task follows exactly the tasks its formula matches, minus itself); non-trivial = the "
+                "and real builds under several PYTHONHASHSEEDs: every task follows exactly the tasks its formula matches, minus itself), and whole "
+                "projects built / selected with -k and/or -m expressions that are false for every task, true for every task, true for "
+                "exactly one (a task stays selected iff every given expression is true for it; an empty selection deselects all); non-trivial = the "
                 "expression compiles, has ≥ 1 identifier and ≥ 1 blank or parenthesis (expressions), a matcher answers True or a "
                 "selection is a proper non-empty subset (tasks); distinct by the string / (tasks, mode, expression)")
     msg = expr_api.check_unicode_assumption()
@@ -51,6 +53,14 @@ def run(ctx):
     ecases = expr_api.after_e2e_cases(rng, ctx.scale(12, 120), 3 if thorough else 2)
     chunk = max(2, len(ecases) // 8 + 1)
     jobs.append(("after-e2e", [{"kind": "after_e2e", "cases": ecases[i:i + chunk]} for i in range(0, len(ecases), chunk)]))
+    # -k / -m at project level: which tasks stay selected (empty, full, singleton selections; both options); API level on the real
+    # select_tasks_by_marks_and_expressions and end to end through pytask.build(expression=…, marker_expression=…)
+    pcases = expr_api.select_project_cases(rng, ctx.scale(300, 6000))
+    chunk = max(50, len(pcases) // 8 + 1)
+    jobs.append(("select-project", [{"kind": "select_project", "cases": pcases[i:i + chunk]} for i in range(0, len(pcases), chunk)]))
+    scases = expr_api.select_e2e_cases(rng, ctx.scale(4, 60))
+    chunk = max(1, len(scases) // 8 + 1)
+    jobs.append(("select-e2e", [{"kind": "select_e2e", "cases": scases[i:i + chunk]} for i in range(0, len(scases), chunk)]))
     flat = [(tag, j) for tag, js in jobs for j in js]
     # biggest jobs first so the pool stays busy
     results = expr_api.run_jobs([j for _, j in flat], ctx.use_model)
@@ -64,6 +74,7 @@ def run(ctx):
                                      f"{expr_api.SYMBOLS_CORE!r}, each under all truth assignments of its identifiers")
     ctx.extra["random_strings"] = nrand
     ctx.extra["task_cases"] = len(cases)
+    ctx.extra["selection_projects"] = {"api": len(pcases), "end_to_end": len(scases)}
     ctx.extra["after_projects"] = {"api": len(acases), "end_to_end": len(ecases)}
 
 
@@ -71,6 +82,10 @@ def replay(ctx, obj):
     inp = obj["input"]
     if inp.get("layer") == "tasks":
         job = {"kind": "tasks", "cases": [inp["case"]]}
+    elif inp.get("layer") == "select-project":
+        job = {"kind": "select_project", "cases": [inp["case"]]}
+    elif inp.get("layer") == "select-e2e":
+        job = {"kind": "select_e2e", "cases": [inp["case"]]}
     elif inp.get("layer") == "after":
         job = {"kind": "after", "cases": [inp["case"]]}
     elif inp.get("layer") == "after-e2e":
